@@ -101,6 +101,14 @@ def cases(tier, seed):
                 for f1 in itertools.product(range(5), repeat=T * M):
                     for f2 in itertools.product(range(5), repeat=T * M * K):
                         yield ('red', B1, B2, shp, f1, f2, seed)
+    # non-finite frequencies (a NaN estimate lies in no bin, whatever the bins are - here they contain 0) and both
+    # options passed by position
+    NV1, NV2 = 6, 5
+    for shp in ((1, 1, 1), (2, 1, 1), (1, 1, 2), (1, 2, 1)):
+        T, M, K = shp
+        for f1 in itertools.product(range(NV1), repeat=T * M):
+            for f2 in itertools.product(range(NV2), repeat=T * M * K):
+                yield ('nonfinite', 0, 0, shp, f1, f2, seed)
     for shp, B1, B2 in b['full_big']:
         T, M, K = shp
         n1, n2 = 3 * B1 + 5, 3 * B2 + 5
@@ -150,11 +158,24 @@ def brute(e1, e2, infr, infr2, amp, mode):
     return out
 
 
+NONFINITE1 = (np.nan, 2.0, 7.0, -1.0, 12.0, np.inf)
+NONFINITE2 = (np.nan, 0.2, 0.7, 2.0, -np.inf)
+
+
+def build_nonfinite(case):
+    _, _, _, shp, f1, f2, seed = case
+    T, M, K = shp
+    infr = np.array([NONFINITE1[i] for i in f1]).reshape(T, M)
+    infr2 = np.array([NONFINITE2[i] for i in f2]).reshape(T, M, K)
+    amp = 2.0 ** (np.arange(T * M * K).reshape(T, M, K) + seed % 3)
+    return np.array([0.0, 5.0, 10.0]), np.array([0.0, 0.5, 1.0]), infr, infr2, amp
+
+
 def check_case(case):
     from emd.spectra import holospectrum
     if case[0] == 'big':
         return check_big(case)
-    e1, e2, infr, infr2, amp = build(case)
+    e1, e2, infr, infr2, amp = build(case) if case[0] != 'nonfinite' else build_nonfinite(case)
     T, M, K = infr2.shape
     B1, B2 = len(e1) - 1, len(e2) - 1
     viols = []
@@ -168,7 +189,7 @@ def check_case(case):
             try:
                 a_, b_, c_ = infr.copy(), infr2.copy(), amp.copy()
                 got = holospectrum(a_, b_, c_, e1.copy(), e2.copy(), mode=mode, squash_time=sq)
-                if not (np.array_equal(a_, infr) and np.array_equal(b_, infr2) and np.array_equal(c_, amp)):
+                if not (np.array_equal(a_, infr, equal_nan=True) and np.array_equal(b_, infr2, equal_nan=True) and np.array_equal(c_, amp)):
                     viols.append(('input-modified', '%s mode=%s: an input array was changed by the call' % (describe(case), mode)))
             except Exception as ex:
                 viols.append(('raise:%s' % type(ex).__name__, '%s sq=%r raised %r' % (describe(case), sq, ex)))
@@ -193,11 +214,16 @@ def check_case(case):
             if not ok:
                 viols.append(('value:%s' % sq, '%s mode=%s squash=%r: got %s expected %s' % (describe(case), mode, sq, got.tolist(), want.tolist())))
     # `mode` and `squash_time` omitted: the documented defaults are 'energy' and time-summed ('sum')
-    if not viols and (sum(case[4]) + sum(case[5])) % 4 == 0:
+    if not viols and ((sum(case[4]) + sum(case[5])) % 4 == 0 or case[0] == 'nonfinite'):
         try:
             d0 = np.asarray(holospectrum(infr.copy(), infr2.copy(), amp.copy(), e1.copy(), e2.copy()))
             want0 = brute(e1, e2, infr, infr2, amp, 'energy').sum(axis=0)
             trans += 1
+            p0 = np.asarray(holospectrum(infr.copy(), infr2.copy(), amp.copy(), e1.copy(), e2.copy(), 'amplitude', False))
+            wantp = brute(e1, e2, infr, infr2, amp, 'amplitude')
+            trans += 1
+            if p0.shape != wantp.shape or not np.array_equal(p0, wantp):
+                viols.append(('positional-options', '%s: holospectrum(..., \'amplitude\', False) by position: shape %r, expected the full amplitude holospectrum %r' % (describe(case), p0.shape, wantp.shape)))
             if d0.shape != want0.shape or not np.array_equal(d0, want0):
                 viols.append(('defaults', '%s: with mode / squash_time omitted the result is not the time-summed energy holospectrum' % describe(case)))
         except Exception as ex:
@@ -222,12 +248,12 @@ def check_case(case):
 
 
 def describe(case):
-    e1, e2, infr, infr2, amp = build(case)
+    e1, e2, infr, infr2, amp = build(case) if case[0] != 'nonfinite' else build_nonfinite(case)
     return 'edges1=%s edges2=%s infr=%s infr2=%s amp=%s' % (e1.tolist(), e2.tolist(), infr.tolist(), infr2.tolist(), amp.tolist())
 
 
 def snippet(case, kind):
-    if case[0] == 'big':
+    if case[0] in ('big', 'nonfinite'):
         return None
     e1, e2, infr, infr2, amp = build(case)
     return ('import numpy as np, emd\n'
